@@ -19,7 +19,7 @@ CHECKS = {
          "5/C03"),
  "C01": ("exploration",
          "runtime reference-model monitor: generated programs x hostile/random graphs executed by the real compiler and pipeline (no optimizers, force-load decorator) in worker processes; canonical row multisets compared with a step-by-step reference interpreter; static typing pass as oracle for rejection",
-         "Held on every explored (program, graph) pair: all V/E-initial step sequences up to length 3 (quick) / 4 (thorough) over a 63-instance alphabet plus 2000 / 50000 random type-directed programs of length 5-9, on a 10-graph hostile library and 20 / 500 random graphs, plus deep families (every sequence of 1-3 / 1-5 moves with marks at two depths ending in path/select/render/count on graphs with fan-out at every level); ill-typed sequences must be rejected at compile time. Order-sensitive steps are judged by bound arithmetic and sub-multiset only. Nothing is claimed beyond the stated program lengths, alphabet and graph sizes.",
+         "Held on every explored (program, graph) pair: all V/E-initial step sequences up to length 3 (quick) / 4 (thorough) over a 63-instance alphabet plus 2000 / 20000 random type-directed programs of length 5-9, on a 10-graph hostile library and 20 / 500 random graphs, plus deep families (every sequence of 1-3 / 1-4 moves with marks at two depths ending in path/select/render/count on graphs with fan-out at every level); ill-typed sequences must be rejected at compile time. Order-sensitive steps are judged by bound arithmetic and sub-multiset only. Nothing is claimed beyond the stated program lengths, alphabet and graph sizes.",
          "Trusted: the reference interpreter harness/model/traversal.go (written from the docs; where the docs are silent it adopts the literal engine behaviour, listed as assumptions in the evidence). Programs whose meaning is unspecified are not generated.",
          "5/C01 and appendix A"),
  "C02": ("exploration",
